@@ -51,20 +51,28 @@ def install(rec_holder):
         rec_holder["rec"].rows.append(tuple(str(x) for x in a))
         return orig_add_row(self, *a, **kw)
     rich.table.Table.add_row = add_row
-    orig_pprint = cli.pretty.pprint
+    # the recorders sit on rich's own entry points, so that it does not matter through which name the CLI reaches them
+    import rich.console
+    import rich.pretty
+    orig_pprint = rich.pretty.pprint
 
     def pprint(obj, *a, **kw):
         rec_holder["rec"].pprinted.append(obj)
         return orig_pprint(obj, *a, **kw)
-    cli.pretty.pprint = pprint
-    orig_print = cli.console.print
+    rich.pretty.pprint = pprint
+    for name, val in list(vars(cli).items()):          # names bound with `from rich.pretty import pprint`
+        if val is orig_pprint:
+            setattr(cli, name, pprint)
+    orig_print = rich.console.Console.print
 
-    def cprint(*a, **kw):
+    def cprint(self, *a, **kw):
+        if a and isinstance(a[0], rich.table.Table):
+            pass                                       # the table itself: its rows were recorded by add_row
         rec_holder["rec"].printed.append(a)
-        if getattr(cli.console, "quiet", False):
-            rec_holder["rec"].suppressed += 1      # rich prints nothing while Console.quiet is set
-        return orig_print(*a, **kw)
-    cli.console.print = cprint
+        if getattr(self, "quiet", False):
+            rec_holder["rec"].suppressed += 1          # rich prints nothing while Console.quiet is set
+        return orig_print(self, *a, **kw)
+    rich.console.Console.print = cprint
     orig_gen = packets.ccsds_generator
 
     def budgeted(binary_data, **kw):
@@ -75,7 +83,9 @@ def install(rec_holder):
                 raise Budget(f"framer yielded more than {rec_holder['budget']} packets")
             yield p
     packets.ccsds_generator = budgeted
-    cli.ccsds_generator = budgeted
+    for name, val in list(vars(cli).items()):          # the name(s) under which the CLI imported the framer
+        if val is orig_gen:
+            setattr(cli, name, budgeted)
 
 
 def nclass(n):
